@@ -181,10 +181,11 @@ class SymTD(Sym):
 
 
 class SymDT(Sym):
-    __slots__ = ("us", "src")
+    __slots__ = ("us", "src", "fields")
 
-    def __init__(self, us=None, src=None):
+    def __init__(self, us=None, src=None, fields=None):
         self.us, self.src = us, src
+        self.fields = fields        # (year, month, day, hour, minute, second, microsecond) when built from fields
 
     def __repr__(self):
         return f"SymDT(us={self.us}, src={self.src})"
